@@ -28,6 +28,7 @@ type Explorer struct {
 	Outcome  func(x *rt.Exec) string // canonical description of a terminal state
 	MaxViol  int
 	Deadline time.Time // zero = none; when reached the search stops with Exhaustive=false
+	Tick     func()    // called once per execution (liveness signal for the driver's watchdog)
 
 	Executions  int
 	Pruned      int
@@ -91,6 +92,9 @@ func (e *Explorer) run(prefix []int) *chooser {
 	c := &chooser{e: e, prefix: prefix}
 	x := rt.Run(e.Root, c, e.cfg)
 	e.Executions++
+	if e.Tick != nil {
+		e.Tick()
+	}
 	if len(c.points) > e.MaxDepth {
 		e.MaxDepth = len(c.points)
 	}
